@@ -275,6 +275,16 @@ class Script(object):
             pr += [x[0] for x in fr]
         return (('OPEN',) in aw, ('KA',) in aw, wire.OPEN in pr, wire.KEEPALIVE in pr)
 
+    def session_peer_hold(self, t):
+        """hold time in the OPEN the peer actually sent on this connection"""
+        for _, d in t.rx:
+            fr, err, rest = wire.deframe(d)
+            for ty, body in fr:
+                if ty == wire.OPEN and len(body) >= 10:
+                    return wire.parse_open(body[:10] + b'')['hold'] if body[9] == 0 else \
+                        int.from_bytes(body[3:5], 'big')
+        return self.peer_hold
+
     def default(self, w):
         s = w.sim
         ll = w.live_list()
@@ -299,7 +309,7 @@ class Script(object):
             if p_open and a_ka and not p_ka:
                 return ('RX', i, self.ka_name)
             if p_open and p_ka:
-                H = min(w.cfg['hold'], self.peer_hold)
+                H = min(w.cfg['hold'], self.session_peer_hold(t))
                 if H > 0:
                     last = max([t.opened_at] + [x[0] for x in t.rx])
                     peer_due = last + H / 3.0
